@@ -397,12 +397,14 @@ def main(argv=None):
                 again = prop.replay(v["scenario"])
             except Exception:
                 again = [{"signature": "REPLAY-CRASH", "what": traceback.format_exc()[-800:]}]
+        rs = v["scenario"]
         sigs = {a["signature"] for a in again}
         if v["signature"] not in sigs and isinstance(v["scenario"], dict) and v["scenario"].get("only") is not None:
             # the scenario pins one case of a work item; if the verdict depends on what the same objects were
             # asked before (state kept by the library between calls), the whole item reproduces it
+            rs = {k: x for k, x in v["scenario"].items() if k != "only"}
             try:
-                again = prop.replay({k: x for k, x in v["scenario"].items() if k != "only"})
+                again = prop.replay(rs)
             except Exception:
                 again = [{"signature": "REPLAY-CRASH", "what": traceback.format_exc()[-800:]}]
             sigs = {a["signature"] for a in again}
@@ -410,7 +412,25 @@ def main(argv=None):
             confirmed.append(v)
             seen_sig.add(v["signature"])
         else:
-            nondeterministic.append((v, sorted(sigs)))
+            # the replay (a fresh execution of the scenario in this process) shows OTHER violations than the worker
+            # saw: the verdict depends on what the worker's process had executed before (state the library keeps
+            # between calls). Violations that two consecutive replays both show are reproducible facts about this
+            # scenario and are reported under their own signatures; the worker's signature is not.
+            stable = []
+            if sigs and "REPLAY-CRASH" not in sigs:
+                try:
+                    again2 = prop.replay(rs)
+                except Exception:
+                    again2 = []
+                sigs2 = {a["signature"] for a in again2}
+                stable = [a for a in again if a["signature"] in sigs2]
+            for a in stable:
+                if a["signature"] in seen_sig:
+                    continue
+                confirmed.append({"signature": a["signature"], "what": a.get("what", ""), "scenario": rs, "observed": a.get("observed"), "expected": a.get("expected")})
+                seen_sig.add(a["signature"])
+            if not stable:
+                nondeterministic.append((v, sorted(sigs)))
 
     exit_code = 0
     new_violations = 0
